@@ -88,6 +88,36 @@ Theorem C07_wait_no_lost_wakeup : forall s, reachable s ->
 Proof. exact wait_no_lost_wakeup. Qed.
 Print Assumptions C07_wait_no_lost_wakeup.
 
+(** who stands behind a table entry: each of the n >= 1 calls registered on it is
+    parked for the version the record of the key has NOW (and its timer is that
+    record's expiry), or its context is done (it took the ctx branch), or it took the
+    timer branch.  The race rounds of the correspondence run check exactly this state
+    through the hook, with no context done and no expiry in play: count <= number of
+    calls still out that were given the current version; otherwise a call is
+    registered for a version that is gone -- it missed the write. *)
+Theorem C07_entry_waiters_current : forall s k c n, reachable s -> tbl s k = Some (c, n) ->
+  closed s c = false /\ n = Z.of_nat (count_on k c (thr s)) /\ (1 <= n)%Z /\
+  forall t p, pc_of s t = Some p -> on_chan k c p = true ->
+    match p with
+    | PParked _ v _ tm => exists r, store s k = Some r /\ r_ver r = v /\ r_exp r = tm
+    | PCancelPending _ _ => ctx_of s t = true
+    | PExpiryPending _ _ _ => True
+    | PCheck _ _ | PDone _ => False
+    end.
+Proof. exact wait_entry_waiters_current. Qed.
+Print Assumptions C07_entry_waiters_current.
+
+(** a round in which the write was a CAS with a stale version (nothing changed): both calls are
+    legitimately registered for the current version; a round whose snapshot shows one
+    registered call although the only call still out was given the overwritten version
+    (tag 1, current tag 2) is rejected *)
+Example C07_ex_race_round :
+  rround_ok (mkRR (Some 1%N) 2%Z [1%N; 1%N] []) = true /\
+  rround_ok (mkRR (Some 2%N) 0%Z [] [mkSRec 1%N [Some 1%N; Some 2%N] false RNil]) = true /\
+  rround_ok (mkRR (Some 2%N) 1%Z [1%N] [mkSRec 1%N [Some 1%N; Some 2%N] false RNil]) = false /\
+  rround_ok (mkRR None 1%Z [1%N] []) = false.
+Proof. vm_compute. repeat split; reflexivity. Qed.
+
 (** hence: a call that has not returned can take a step whenever it is not parked,
     and also when it is parked and a return condition holds (its context is done,
     or the key is absent / expired / has another version: [changed]) *)
@@ -201,10 +231,11 @@ Proof. vm_compute. reflexivity. Qed.
 
 (** * what a passing correspondence check means *)
 
-(** a script step accepted by the validator ([run/Run_C07.v]) takes the model along
-    LTS labels to a state in which no call can move, whose parked calls are exactly
-    the calls the implementation had blocked in select, and in which no channel was
-    closed twice *)
+(** a script step accepted by the validator ([run/Run_C07.v]) -- a single action
+    followed by the canonical firing of the internal labels, or a burst of actions for
+    which the validator searched the interleavings -- takes the model along LTS labels
+    to a state in which no call can move, whose parked calls are exactly the calls the
+    implementation had blocked in select, and in which no channel was closed twice *)
 Theorem C07_check_step_sound : forall keys v x v',
   check_step keys v x = Some v' ->
   exists ls, v_trace v' = v_trace v ++ ls /\ run (v_st v) ls = Some (v_st v') /\
@@ -213,6 +244,57 @@ Theorem C07_check_step_sound : forall keys v x v',
              dblclose (v_st v') = false.
 Proof. exact check_step_sound. Qed.
 Print Assumptions C07_check_step_sound.
+
+(** the search over the interleavings of a burst never leaves the LTS: whatever it
+    returns is a run of the model from the state before the burst to a quiescent state
+    that the acceptance test (the comparison with the observation) accepted, whatever
+    [mac] (wake-ups fused with the section that follows, or every label on its own).
+    (The other direction -- every interleaving is tried, so "no explanation" means the
+    implementation did something the model cannot do -- is by construction of [search]
+    with [mac = single], which [check_step] runs before it rejects a burst: at every node every
+    pending action and every enabled label of every call is tried; see the comment
+    there and notes/C07.md.) *)
+Theorem C07_burst_search_sound :
+  forall {X} fuel mac ordered alive (accept : st -> bij -> option X) s vb pend acc s' x ls,
+  search fuel mac ordered alive accept s vb pend acc = Some (s', x, ls) ->
+  exists ls' vb', ls = rev acc ++ ls' /\ run s ls' = Some s' /\
+                  (forall t, enabled_of s' t = []) /\ accept s' vb' = Some x.
+Proof. exact @search_sound. Qed.
+Print Assumptions C07_burst_search_sound.
+
+(** the burst "cancel call 0; Put; start call 1 for the new version" issued back-to-back while
+    call 0 is parked: both ways call 0 can come back are accepted (through the closed
+    channel: nil; through ctx.Done: the context's error -- its tear-down then finds a
+    record that is no longer its own and leaves it alone), with call 1 parked on a new
+    entry.  The same burst observed with call 1 parked and NO table entry (what a
+    tear-down that forgets the identity check produces) has no explanation. *)
+Definition C07_ex_burst_pre : list sstep :=
+  [mkStep (SMut (OPut 0 None) (MOk 1%N)) (mkObs [] [] [] [(0, 1%N)]);
+   mkStep (SStart 0 1%N false) (mkObs [] [0] [(0, (1%N, 1%Z))] [(0, 1%N)])].
+Definition C07_ex_burst_acts : list sop :=
+  [SCancel 0; SMut (OPut 0 None) (MOk 2%N); SStart 0 2%N false].
+
+Example C07_ex_burst :
+  option_map v_trace (run_mem [0; 1] (C07_ex_burst_pre ++
+    [mkBurst true C07_ex_burst_acts (mkObs [(0, RCtx)] [1] [(0, (2%N, 1%Z))] [(0, 2%N)])])) =
+  Some [Mut (OPut 0 None); Start 0 0 1%N; LCheck 0;
+        CtxDone 0; Mut (OPut 0 None); Start 1 0 2%N; WakeCtx 0; CancelSec 0; LCheck 1]
+  /\
+  option_map v_trace (run_mem [0; 1] (C07_ex_burst_pre ++
+    [mkBurst true C07_ex_burst_acts (mkObs [(0, RNil)] [1] [(0, (2%N, 1%Z))] [(0, 2%N)])])) =
+  Some [Mut (OPut 0 None); Start 0 0 1%N; LCheck 0;
+        CtxDone 0; Mut (OPut 0 None); Start 1 0 2%N; WakeChan 0; LCheck 0; LCheck 1]
+  /\
+  run_mem [0; 1] (C07_ex_burst_pre ++
+    [mkBurst true C07_ex_burst_acts (mkObs [(0, RCtx)] [1] [] [(0, 2%N)])]) = None
+  /\
+  (* not issued by one goroutine: the start may also come before the Put *)
+  option_map v_trace (run_mem [0; 1] (C07_ex_burst_pre ++
+    [mkBurst false [SMut (OPut 0 None) (MOk 2%N); SCancel 0; SStart 0 1%N false]
+             (mkObs [(0, RCtx); (1, RNil)] [] [] [(0, 2%N)])])) =
+  Some [Mut (OPut 0 None); Start 0 0 1%N; LCheck 0;
+        Mut (OPut 0 None); CtxDone 0; Start 1 0 1%N; WakeCtx 0; CancelSec 0; LCheck 1].
+Proof. vm_compute. repeat split; reflexivity. Qed.
 
 (** an accepted case is a trace of the LTS from [init]; its final state is reachable
     and satisfies the invariant *)
